@@ -59,15 +59,19 @@ pub enum Kind {
     /// a randomly generated voice (grammar + reference interpreter in `randvoice.rs`): `rand` holds
     /// its functions; every instance has a state shape of its own
     Rand,
+    /// a voice whose `self` is an ARRAY: the feed cell holds a handle into the machine's array
+    /// storage, not a number (`[p0 + x, p0]` with `p0` read from the previous array)
+    ArrSelf,
 }
 
 /// Kinds used for generation. `Kind::Gate` (stateful calls in both arms of an `if`) is NOT in this
 /// list: on the pinned tree the VM underflows its state position on such programs (panic with
 /// overflow checks, heap corruption / abort without) even in a fault-free run. That is a crash of
 /// an accepted program (C03/C05 territory, not claimed here) and would only kill workers.
-pub const ALL_KINDS: [Kind; 30] = [
+pub const ALL_KINDS: [Kind; 31] = [
     Kind::Rand,
     Kind::Rand,
+    Kind::ArrSelf,
     Kind::FeedDly,
     Kind::InMem,
     Kind::InDly,
@@ -195,6 +199,7 @@ impl Voice {
             Kind::InDly => "delay".into(),
             Kind::FeedDly => format!("feeddly{}", self.id),
             Kind::Rand => format!("rv{}_0", self.id),
+            Kind::ArrSelf => "arrself".into(),
         };
         base
     }
@@ -215,7 +220,7 @@ impl Voice {
             Kind::Counter | Kind::SrPhase | Kind::ArrPhase | Kind::GlobK | Kind::MainCl => vec![lit(self.p[0])],
             Kind::Duo | Kind::DlySrc | Kind::FeedDly => vec![],
             Kind::Leaky => vec![x, lit(self.p[0])],
-            Kind::Lag2 | Kind::Mfb | Kind::Mmf | Kind::InMem | Kind::Rand => vec![x],
+            Kind::Lag2 | Kind::Mfb | Kind::Mmf | Kind::InMem | Kind::Rand | Kind::ArrSelf => vec![x],
             Kind::Echo => vec![x, lit(self.p[0])],
             Kind::InDly => vec![format!("{}", self.n), x, lit(self.p[0])],
             Kind::EchoMod => vec![x, lit(self.p[0]), lit(self.p[1])],
@@ -250,6 +255,8 @@ impl Voice {
                 format!("let ({v}a, {v}b, {v}c) = {call};\n  let {v} = {v}c + {v}a * 0.5"),
                 v,
             ),
+            // the call yields an array; the channel reads its first element
+            Kind::ArrSelf => (format!("let {v}h = {call};\n  let {v} = {v}h[0]"), v),
             _ => (format!("let {v} = {call}"), v),
         }
     }
@@ -270,6 +277,11 @@ impl Voice {
         let n = self.n;
         let mut d = match self.kind {
             Kind::Rand => self.rand.as_ref().map(|r| r.defs(self.id)).unwrap_or_default(),
+            Kind::ArrSelf => vec![(
+                "arrself".into(),
+                // the guard keeps the first call from indexing the zero handle of the unset cell
+                "fn arrself(x){\n  let prev = self\n  let p0 = if (mem(1.0) > 0.5) { prev[0] } else { 0.0 }\n  [p0 + x, p0]\n}".into(),
+            )],
             Kind::Counter => vec![cnt],
             Kind::Leaky => vec![(
                 "leaky".into(),
@@ -469,7 +481,7 @@ impl Model {
     pub fn zero(v: &Voice) -> Model {
         let ns = match v.kind {
             Kind::Counter | Kind::Leaky | Kind::Clk | Kind::SrPhase | Kind::ArrPhase | Kind::GlobK | Kind::MainCl | Kind::InMem => 1,
-            Kind::Lag2 | Kind::Mfb | Kind::Pair | Kind::Nest | Kind::CntMem | Kind::Late | Kind::TupCalls => 2,
+            Kind::Lag2 | Kind::Mfb | Kind::Pair | Kind::Nest | Kind::CntMem | Kind::Late | Kind::TupCalls | Kind::ArrSelf => 2,
             Kind::ArgCall => 4,
             Kind::Gate | Kind::Wide | Kind::Deep | Kind::Mmf | Kind::LateMem | Kind::RecCalls => 3,
             Kind::Echo | Kind::Duo | Kind::InDly | Kind::Rand => 0,
@@ -520,6 +532,13 @@ impl Model {
             Kind::Counter => {
                 self.s[0] += p[0];
                 self.s[0]
+            }
+            Kind::ArrSelf => {
+                // s0 = the mem(1.0) cell, s1 = element 0 of the previous array
+                let p0 = if self.s[0] > 0.5 { self.s[1] } else { 0.0 };
+                self.s[0] = 1.0;
+                self.s[1] = p0 + x;
+                self.s[1]
             }
             Kind::Rand => match (v.rand.as_ref(), self.rstate.as_mut()) {
                 (Some(r), Some(st)) => r.eval_fn(0, st, x),
@@ -688,7 +707,9 @@ impl Model {
     }
 }
 
-const DELAY_LENS: [u32; 8] = [2, 3, 4, 7, 16, 33, 64, 100];
+/// (the three long ones only under `max_delay = 10000`, one run in six: a reverb-sized state of
+/// thousands of words, where allocation-size thresholds and buffer reuse live)
+const DELAY_LENS: [u32; 11] = [2, 3, 4, 7, 16, 33, 64, 100, 1024, 4800, 9600];
 pub const INLINE_DELAY_LEN: u32 = 7;
 
 /// Draw a voice of the given kind with random parameters.
@@ -728,7 +749,12 @@ pub fn gen_voice(rng: &mut Rng, id: u32, kind: Kind, n_in: u32, max_delay: u32) 
             p[0] = small(rng);
             p[1] = *rng.pick(&[0.0, 1.0, 3.0, 10.0, 40.0, 200.0]);
         }
-        Kind::Echo | Kind::InDly => p[0] = rng.range(1, (n - 1) as u64) as f64 + if rng.chance(1, 4) { 0.5 } else { 0.0 },
+        Kind::Echo | Kind::InDly => {
+            // a long line is read back early in half of the cases, so that its content matters
+            // within a short run
+            let hi = if n > 200 && rng.chance(1, 2) { 40 } else { (n - 1) as u64 };
+            p[0] = rng.range(1, hi) as f64 + if rng.chance(1, 4) { 0.5 } else { 0.0 }
+        }
         Kind::EchoMod => {
             // lo + ph stays within [1, n-1]: ph in [0, per-1]
             let per = rng.range(1, (n - 1).max(1) as u64);
@@ -745,7 +771,7 @@ pub fn gen_voice(rng: &mut Rng, id: u32, kind: Kind, n_in: u32, max_delay: u32) 
             p[0] = rng.range(1, (n - 1) as u64) as f64;
             p[1] = *rng.pick(&[0.0, 0.25, 0.5, 0.75]);
         }
-        Kind::Lag2 | Kind::Mfb | Kind::Mmf | Kind::InMem | Kind::Rand => {}
+        Kind::Lag2 | Kind::Mfb | Kind::Mmf | Kind::InMem | Kind::Rand | Kind::ArrSelf => {}
     }
     // On the pinned tree the VM looks up the ring size of EVERY `delay` of a function at index 0 of
     // the function's `delay_sizes` (`delaysizes_pos_stack` is pushed as 0 per call and never
@@ -845,7 +871,7 @@ pub fn tweak_constant(rng: &mut Rng, v: &mut Voice) -> bool {
             v.p[0] = d as f64;
             true
         }
-        Kind::Lag2 | Kind::Mfb | Kind::Mmf | Kind::InMem => match v.input {
+        Kind::Lag2 | Kind::Mfb | Kind::Mmf | Kind::InMem | Kind::ArrSelf => match v.input {
             InputSrc::Const(c) => {
                 v.input = InputSrc::Const(c + 0.25);
                 true
